@@ -232,8 +232,15 @@ def run_case(job: dict) -> list[dict]:
         if len(_PL_CACHE) > 64:
             _PL_CACHE.clear()
         pdesc = job.get("pdesc") or pmap.tla_desc_to_py(tdesc)
-        with contextlib.redirect_stdout(io.StringIO()):
-            _PL_CACHE[key] = (pdesc, build.make_pipeline(pdesc))
+        try:
+            with contextlib.redirect_stdout(io.StringIO()):
+                _PL_CACHE[key] = (pdesc, build.make_pipeline(pdesc))
+        except Exception as ex:  # noqa: BLE001  a description the pipeline refuses to be built from: every request is refused
+            return [{"desc": tdesc, "inputs": inputs, "route": route, "S": S, "must": job.get("must", "?"),
+                     "cut": job.get("cut", "?"), "kinds": job.get("kinds"), "dontcare": job.get("dontcare", False),
+                     "ev": [with_request(pmap.ev(e="reject", F=job["needed"], cls=type(ex).__name__,
+                                                 msg="construct: " + str(ex)[:280]), S, named_in(str(ex), tdesc))]}
+                    for route in job.get("routes", ROUTES)]
     pdesc, pl = _PL_CACHE[key]
     inputs_py = pmap.inputs_to_py(inputs, job.get("kinds"))
     if job.get("nested"):              # scoped names given as nested dicts: {"sc": {"x": ...}} instead of {"sc.x": ...}
@@ -610,6 +617,17 @@ def run(ctx: Ctx) -> None:
 
     # random larger DAGs (TLC computes the needed set)
     rjobs = random_call_style_jobs(rng, 150 if quick else 4000)
+    # two consumers declaring DIFFERENT defaults for a parameter that a third function produces (legal: the produced value
+    # wins), in several listing orders: selections that do not cut that producer off are valid requests
+    def _fn(name, params, outs, dflt=None):
+        return {"name": name, "params": params, "outputs": outs, "defaults": dflt or [], "bound": [], "has_ms": False,
+                "ms": {"ins": [], "outs": []}, "internal": [], "cache": False}
+    cf = [_fn("f", ["x"], ["y"]), _fn("g1", ["y"], ["a"], [["y", {"f": "@d1_y", "a": []}]]),
+          _fn("g2", ["y"], ["b"], [["y", {"f": "@d2_y", "a": []}]]), _fn("h", ["x"], ["w"])]
+    for order in ([0, 1, 2, 3], [1, 2, 3, 0], [3, 2, 1, 0], [1, 0, 3, 2]):
+        for S in (["w"], ["a"], ["a", "w"], ["b", "y"]):
+            rjobs.append({"desc": {"funcs": [cf[i] for i in order]}, "S": S, "inputs": [["x", pcall.kv("x")]], "needed": ["*"],
+                          "must": "?", "cut": "?"})
     for j in rjobs[::3]:
         j["routes"] = ROUTES + ("async_output_names",)
     rtraces = run_jobs(rjobs)
